@@ -544,6 +544,14 @@ class Interp:
             return Poly.sym(path)
         return Unk(path, t)
 
+    @staticmethod
+    def _is_shared_piece(callee, fr):
+        """A private module-level function (a piece shared by the methods that call it) does not use up inlining depth -- unless it
+        is already on the stack."""
+        if callee.cls is not None or not (callee.name.startswith("_") or (callee.module is not None and callee.module.name.startswith("_"))) or callee.name.startswith("__"):
+            return False
+        return not any(q == callee.qualname for _loc, q in fr.stack)
+
     def path_of(self, v, fallback):
         if isinstance(v, Obj):
             return v.name
@@ -742,7 +750,7 @@ class Interp:
         st.trace.append(cev)
         saved_env = st.env
         nfr = Frame(callee, self.types.ftypes(callee), fr.stack + ((fr.func.loc(call), callee.qualname),),
-                    depth=fr.depth if getattr(callee, "parent", None) is not None else fr.depth + 1)
+                    depth=fr.depth if (getattr(callee, "parent", None) is not None or self._is_shared_piece(callee, fr)) else fr.depth + 1)
         env = dict(saved_env) if getattr(callee, "parent", None) is not None else {}   # a nested def sees the locals of its definer
         foreign_closure = getattr(callee, "cenv", None) is not None
         if foreign_closure:
@@ -1070,6 +1078,14 @@ class Interp:
                     return outs
             v = self.eval(s.value, st, fr, effects=True) if s.value is not None else NONE
             v = self._deref_locals(v, st)
+            if isinstance(v, Unk) and v.typ == ("prim", "bool") and isinstance(s.value, ast.Call):
+                self._quiet += 1
+                try:
+                    t = self.truth(s.value, st, fr)   # a boolean whose value an established fact decides
+                finally:
+                    self._quiet -= 1
+                if t is not None:
+                    v = Const(t)
             if not fr.stack:
                 st.trace.append(Ret(v, s, fr.func, fr.stack))
             return [(st, ("return", v))]
@@ -1227,7 +1243,7 @@ class Interp:
                 if id(cs.node) not in inside:
                     continue
                 fn = cs.node.func if isinstance(cs.node, ast.Call) else None
-                if not cs.resolved and isinstance(fn, ast.Attribute) and isinstance(fn.value, ast.Name) and fn.value.id == elem[0]:
+                if (not cs.resolved or len(cs.callees) > 1) and isinstance(fn, ast.Attribute) and isinstance(fn.value, ast.Name) and fn.value.id == elem[0]:
                     m = self.repo.lookup_method(elem[1], fn.attr)
                     if m is not None:
                         roots.append(m)
@@ -1352,6 +1368,24 @@ class Interp:
             return list(it.args)
         if isinstance(it, (ast.List, ast.Tuple)) and it.elts and all(isinstance(x, ast.Starred) for x in it.elts):
             return [x.value for x in it.elts]
+        if isinstance(it, ast.Call) and not it.keywords and len(it.args) == 1 and isinstance(it.func, ast.Name) and it.func.id in ("list", "tuple", "iter"):
+            return Interp._chain_args(it.args[0])
+        if isinstance(it, ast.BinOp) and isinstance(it.op, ast.Add):
+            # `a + b` of two model collections (attribute chains, possibly wrapped in list()/tuple())
+            def coll(e):
+                if isinstance(e, ast.Call) and not e.keywords and len(e.args) == 1 and isinstance(e.func, ast.Name) and e.func.id in ("list", "tuple"):
+                    e = e.args[0]
+                return e if isinstance(e, ast.Attribute) else None
+            parts = []
+            for e in (it.left, it.right):
+                sub = Interp._chain_args(e) if isinstance(e, ast.BinOp) else None
+                if sub is None:
+                    c = coll(e)
+                    if c is None:
+                        return None
+                    sub = [c]
+                parts.extend(sub)
+            return parts
         return None
 
     def _generator_parts(self, it, st, fr):
@@ -1364,7 +1398,14 @@ class Interp:
             return None
         g = callees[0]
         body = [b for b in g.body() if not (isinstance(b, ast.Expr) and isinstance(b.value, ast.Constant))]
-        if not body or not all(isinstance(b, ast.Expr) and isinstance(b.value, ast.YieldFrom) for b in body) or g.params != ["self"]:
+        if g.params != ["self"] or not body:
+            return None
+        if len(body) == 1 and isinstance(body[0], ast.Return) and body[0].value is not None and self._chain_args(body[0].value) is not None:
+            # a helper that returns the concatenation of several collections of the receiver
+            exprs = self._chain_args(body[0].value)
+        elif all(isinstance(b, ast.Expr) and isinstance(b.value, ast.YieldFrom) for b in body):
+            exprs = [b.value.value for b in body]
+        else:
             return None
         import copy
         recv = it.func.value
@@ -1373,8 +1414,8 @@ class Interp:
             def visit_Name(self, n):
                 return copy.deepcopy(recv) if n.id == "self" else n
         parts = []
-        for b in body:
-            e = S().visit(copy.deepcopy(b.value.value))
+        for b in exprs:
+            e = S().visit(copy.deepcopy(b))
             ast.copy_location(e, it)
             for x in ast.walk(e):
                 ast.copy_location(x, it)
@@ -1462,7 +1503,47 @@ class Interp:
             memo[key] = (s, lp)
         return memo[key][1]
 
+    def _accumulate_flatten(self, s, st, fr):
+        """`acc = []` ... `for p in X: acc.extend(p.attr)` (or `getattr(p, <known name>)`, or `acc += p.attr`) is the flattening of
+        the `attr` lists of X's elements: the same value as chain.from_iterable / the nested comprehension.  -> True when handled."""
+        if s.orelse or len(s.body) != 1 or not isinstance(s.target, ast.Name):
+            return False
+        b = s.body[0]
+        acc = arg = None
+        if isinstance(b, ast.Expr) and isinstance(b.value, ast.Call) and isinstance(b.value.func, ast.Attribute) and b.value.func.attr == "extend" \
+                and isinstance(b.value.func.value, ast.Name) and len(b.value.args) == 1 and not b.value.keywords:
+            acc, arg = b.value.func.value.id, b.value.args[0]
+        elif isinstance(b, ast.AugAssign) and isinstance(b.op, ast.Add) and isinstance(b.target, ast.Name):
+            acc, arg = b.target.id, b.value
+        if acc is None:
+            return False
+        cur = st.env.get(acc)
+        if not (isinstance(cur, ListV) and cur.fresh and not cur.items and cur.kind == "list"):
+            return False
+        var = s.target.id
+        attr = None
+        if isinstance(arg, ast.Attribute) and isinstance(arg.value, ast.Name) and arg.value.id == var:
+            attr = arg.attr
+        elif isinstance(arg, ast.Call) and isinstance(arg.func, ast.Name) and arg.func.id == "getattr" and len(arg.args) == 2 \
+                and isinstance(arg.args[0], ast.Name) and arg.args[0].id == var:
+            nm = self.eval(arg.args[1], st, fr)
+            if isinstance(nm, Const) and isinstance(nm.v, str) and nm.v.isidentifier():
+                attr = nm.v
+        if attr is None:
+            return False
+        gen = ast.GeneratorExp(elt=ast.Attribute(value=ast.Name(id=var, ctx=ast.Load()), attr=attr, ctx=ast.Load()),
+                               generators=[ast.comprehension(target=ast.Name(id=var, ctx=ast.Store()), iter=s.iter, ifs=[], is_async=0)])
+        ast.copy_location(gen, s)
+        ast.fix_missing_locations(gen)
+        v = self._flatten(gen, st, fr)
+        if v is None:
+            return False
+        st.env[acc] = v
+        return True
+
     def exec_for(self, s, st, fr):
+        if self._accumulate_flatten(s, st, fr):
+            return [(st, None)]
         z = self._zip_map_loop(s, st, fr) or self._zip_repeat_loop(s, st, fr)
         if z is not None:
             return self.exec_for(z, st, fr)
@@ -1492,7 +1573,7 @@ class Interp:
             if isinstance(t, ast.Name):
                 names.add(t.id)
         et0 = coll.typ[1] if isinstance(coll, (Unk, CollV)) and coll.typ and coll.typ[0] in ("list", "set") and coll.typ[1] else None
-        elem = (s.target.id, et0[1]) if isinstance(s.target, ast.Name) and et0 and et0[0] == "obj" and fr.ft.type_of(s.iter) is None else None
+        elem = (s.target.id, et0[1]) if isinstance(s.target, ast.Name) and et0 and et0[0] == "obj" else None
         attrs |= self._callee_write_attrs(s.body, fr, elem)
         # a local that aliases a model object's container and is only *mutated* in the body stays that alias: what changes is
         # the attribute it denotes
@@ -1509,7 +1590,7 @@ class Interp:
         ct = fr.ft.type_of(s.iter)
         if ct and ct[0] in ("list", "set"):
             et = ct[1]
-        if et is None and isinstance(coll, (Unk, CollV)) and coll.typ and coll.typ[0] in ("list", "set"):
+        if (et is None or et[0] == "union") and isinstance(coll, (Unk, CollV)) and coll.typ and coll.typ[0] in ("list", "set") and coll.typ[1]:
             et = coll.typ[1]   # the static type of the expression is unknown (a table entry, a parameter) but the value knows what it holds
         if et is not None and et[0] == "union":
             et = None
@@ -2089,6 +2170,9 @@ class Interp:
             if isinstance(v, Poly) and v.is_const():
                 if val is not None and not (isinstance(val, Poly) and val == v):
                     return None
+            elif isinstance(v, EnumSet) and v.single() is not None:
+                if val is not None and not (isinstance(val, EnumSet) and val.cls == v.cls and val.single() == v.single()):
+                    return None
             elif not isinstance(v, Const) or (val is not None and not (isinstance(val, Const) and val.v == v.v)):
                 return None
             val = v
@@ -2186,6 +2270,12 @@ class Interp:
             if isinstance(cur, ListV) and cur.fresh and op in ("append", "add") and len(args) == 1:
                 items = cur.items + ([args[0]] if not (cur.kind == "set" and any(_same(args[0], x) for x in cur.items)) else [])
                 st.env[recv_expr.id] = ListV(items, True, cur.kind)
+            elif isinstance(cur, ListV) and cur.fresh and cur.kind == "list" and op == "insert" and len(args) == 2 and isinstance(args[0], Poly) and args[0].is_const() \
+                    and float(args[0].const_value()).is_integer():
+                i = int(args[0].const_value())
+                items = list(cur.items)
+                items.insert(i, args[1])
+                st.env[recv_expr.id] = ListV(items, True, cur.kind)
             elif isinstance(cur, ListV) and cur.fresh and op in ("extend", "update") and len(args) == 1 and isinstance(args[0], ListV):
                 items = list(cur.items)
                 for x in args[0].items:
@@ -2194,6 +2284,16 @@ class Interp:
                 st.env[recv_expr.id] = ListV(items, True, cur.kind)
             elif isinstance(cur, ListV):
                 st.env[recv_expr.id] = Unk(f"{recv_expr.id}~{next(self._fresh)}", fr.ft.lookup(recv_expr.id, fr.func.node))
+            elif isinstance(cur, CollV) and op not in ("remove", "discard", "pop", "sort", "reverse", "clear", "difference_update", "intersection_update", "index", "count", "copy"):
+                # elements are added to a filtered collection: what is known about every element is what holds for the old and
+                # for the new ones alike
+                other = args[0] if len(args) == 1 else None
+                if op in ("update", "extend") and isinstance(other, CollV) and other.base == cur.base and len(cur.cpreds) == len(cur.preds):
+                    common = [(pr, cp) for pr, cp in zip(cur.preds, cur.cpreds) if cp in other.cpreds]
+                    nv = CollV(cur.base, [pr for pr, _ in common], cur.typ, cur.kind, [cp for _, cp in common], penv=cur.penv)
+                    st.env[recv_expr.id] = nv
+                else:
+                    st.env[recv_expr.id] = Unk(f"{recv_expr.id}~{next(self._fresh)}", fr.ft.lookup(recv_expr.id, fr.func.node))
             for k in [k for k in st.memo if k[0] == fr.uid and _mentions(k[1], recv_expr.id)]:
                 del st.memo[k]
             return True
@@ -2218,7 +2318,7 @@ class Interp:
             if mv is not None:
                 return mv
             if e.id in self.repo.functions and isinstance(e.ctx, ast.Load):
-                return FuncV(self.repo.functions[e.id].node)   # a module-level function used as a value (a sort key, a table entry)
+                return FuncV(self.repo.function_for(e.id, fr.func.module).node)   # a module-level function used as a value (a sort key, a table entry)
             if e.id in r.classes and isinstance(e.ctx, ast.Load):
                 cv = ClassV(e.id, None)
                 cv.cls = e.id
@@ -2252,12 +2352,18 @@ class Interp:
                 return BoundV(op=e.attr, ref=e.value)
             if isinstance(base, DictV) and e.attr == "get" and isinstance(e.value, (ast.Name, ast.Attribute)) and isinstance(e.ctx, ast.Load):
                 return BoundV(op="get", ref=e.value)
+            if isinstance(base, ClassV) and base.cls in self.repo.enums and e.attr in self.repo.enums[base.cls]:
+                return EnumSet(base.cls, [e.attr])   # a member of an enum class that was handed over as a value
             if isinstance(base, EnumSet) and base.single() is not None and e.attr in ("name", "value"):
                 if e.attr == "name":
                     return Const(base.single())
                 val = self.repo.enums[base.cls].get(base.single())
                 if isinstance(val, (int, float)):
                     return Poly.const(val)
+            if isinstance(base, Const) and base.v is None and not (isinstance(e.value, ast.Name) and (e.value.id == "self" or e.value.id in fr.func.params or e.value.id in fr.func.kwonly)):
+                # an attribute of a model attribute that is None on this path (`task.target_component.placed_workplace` after the
+                # `is None` branch): Python raises AttributeError here; the value is marked so that rules can tell
+                return Unk(f"<None>.{e.attr}", fr.ft.type_of(e))
             tag = f"{self.path_of(base, ast.unparse(e.value))}.{e.attr}"
             return Unk(tag, fr.ft.type_of(e))
         if isinstance(e, ast.UnaryOp):
@@ -2287,6 +2393,8 @@ class Interp:
                     t = self._truth_of_value(v)
                     if t is None:
                         t = self.truth(x, st, fr)
+                        if t is not None and isinstance(v, Unk) and v.typ == ("prim", "bool"):
+                            v = Const(t)   # a boolean whose value an established fact decides
                 if t is None:
                     t_all = self.truth(e, st, fr)
                     if t_all is not None:
@@ -2395,6 +2503,8 @@ class Interp:
             typ = fr.ft.type_of(e)
             if typ is None and isinstance(base, Unk) and base.typ and base.typ[0] == "dict" and len(base.typ) > 2:
                 typ = base.typ[2]   # an untyped parameter holding a typed map: the value knows what its entries are
+            if typ is None and isinstance(base, (Unk, CollV)) and base.typ and base.typ[0] == "list" and not isinstance(e.slice, ast.Slice):
+                typ = base.typ[1]   # ... or a typed list (a state log handed to a shared helper)
             return self.value_for_type(tag, typ)
         if isinstance(e, ast.Call):
             return self.eval_call(e, st, fr, effects)
@@ -3112,6 +3222,10 @@ class Interp:
 
     def truth(self, e, st, fr):
         """3-valued truth of a test expression in state st: True / False / None."""
+        if isinstance(e, ast.Call):
+            q = self._quantifier(e, st, fr)
+            if q is not None:
+                return self.truth(q, st, fr)
         if isinstance(e, ast.BoolOp):
             vals = [self.truth(x, st, fr) for x in e.values]
             if isinstance(e.op, ast.And):
@@ -3464,8 +3578,48 @@ class Interp:
                 return True
         return False
 
+    def _quantifier(self, test, st, fr):
+        """`any(E(v) for v in xs)` / `all(...)` over a list whose elements are known (a tuple of states handed to a helper) is the
+        disjunction / conjunction of E over them.  -> that BoolOp (its element names bound in st.env), or None."""
+        if not (isinstance(test, ast.Call) and isinstance(test.func, ast.Name) and test.func.id in ("any", "all") and len(test.args) == 1 and not test.keywords
+                and isinstance(test.args[0], (ast.GeneratorExp, ast.ListComp)) and len(test.args[0].generators) == 1):
+            return None
+        g = test.args[0].generators[0]
+        if g.ifs or not isinstance(g.target, ast.Name) or isinstance(g.iter, (ast.Attribute, ast.Call)):
+            return None
+        self._quiet += 1
+        try:
+            it = self.eval(g.iter, st, fr)
+        finally:
+            self._quiet -= 1
+        if not (isinstance(it, ListV) and 1 <= len(it.items) <= 8):
+            return None
+        memo = self.__dict__.setdefault("_quant_memo", {})
+        key = (id(test), len(it.items))
+        if key not in memo:
+            import copy
+            var = g.target.id
+            parts = []
+            for i in range(len(it.items)):
+                nm = f"__q{id(test)}_{i}"
+
+                class S(ast.NodeTransformer):
+                    def visit_Name(self, n):
+                        return ast.copy_location(ast.Name(id=nm, ctx=n.ctx), n) if n.id == var else n
+                parts.append(S().visit(copy.deepcopy(test.args[0].elt)))
+            e = parts[0] if len(parts) == 1 else ast.BoolOp(op=ast.Or() if test.func.id == "any" else ast.And(), values=parts)
+            ast.copy_location(e, test)
+            ast.fix_missing_locations(e)
+            memo[key] = (test, e)
+        for i, item in enumerate(it.items):
+            st.env[f"__q{id(test)}_{i}"] = item
+        return memo[key][1]
+
     def assume(self, test, truth, st, fr):
         """Refine st under `test == truth`.  Returns False when the assumption is contradictory."""
+        q = self._quantifier(test, st, fr)
+        if q is not None:
+            return self.assume(q, truth, st, fr)
         cur = self.truth(test, st, fr)
         if cur is not None:
             return cur == truth
